@@ -86,3 +86,9 @@ SINGLE_CONSTRUCT = {
     "oneof_nested_msg.proto": _pkg("oneof_nested_msg", "message M { message In { oneof a { int32 x = 1; } oneof b { int32 y = 2; } int32 mk20024 = 20024; } In in_ = 1; int32 mk20025 = 20025; }\n"),
 }
 
+
+# a field named like the import alias of the child package its type comes from: fine under the default options (C03, C13),
+# a known finding under pydantic_dataclasses (pydantic resolves the quoted annotation "item.Item" with the class namespace
+# first, where item is the field) - C13 / C18 probe it on its own
+ALIAS_PROBE = {k: SINGLE_CONSTRUCT[k] for k in ("alias_child.proto", "alias_parent.proto")}
+SINGLE_CONSTRUCT_NO_ALIAS = {k: v for k, v in SINGLE_CONSTRUCT.items() if k not in ALIAS_PROBE}
